@@ -736,9 +736,19 @@ func backSlice(v ssa.Value) map[ssa.Value]bool {
 		seen[x] = true
 		if in, ok := x.(ssa.Instruction); ok {
 			for _, op := range in.Operands(nil) {
-				if *op != nil {
-					walk(*op)
+				if *op == nil {
+					continue
 				}
+				// the base object of a field/element address is not expanded into everything ever stored
+				// into it: the field-sensitive load rule below handles what the selected field holds
+				if a, isAlloc := (*op).(*ssa.Alloc); isAlloc {
+					switch x.(type) {
+					case *ssa.FieldAddr, *ssa.IndexAddr:
+						seen[a] = true
+						continue
+					}
+				}
+				walk(*op)
 			}
 		}
 		// an array/slice backing store built locally (variadic packs, slice literals): include the
